@@ -44,14 +44,14 @@ META = {
 THEOREMS = [
     "add_sub_cancel", "sub_add_cancel", "diff_add", "sub_is_add_neg", "delta_add_comm", "delta_add_sub",
     "time_delta_add_comm", "expression_affine", "expression_same_point", "expression_defined", "duration_format_irrelevant", "mixed_scale_refused", "meaningless_refused",
-    "result_scale_fmt",
+    "result_scale_fmt", "operands_untouched", "results_fresh_and_frozen", "c03_seconds_inplace_refuted", "c03_val2_aliased_refuted",
     "delta_to_jds_value", "delta_to_jds_normalised", "delta_from_to_jds",
-    "two_part_accuracy", "method_eqb_sound", "method_eqb_complete", "gen_is_model", "gen_neg_is_model", "gen_laws_if_clean",
+    "two_part_accuracy", "method_eqb_sound", "method_eqb_complete", "gen_is_model", "gen_neg_is_model", "gen_delta_formats_are_model", "gen_laws_if_clean",
     "gen_delta_class_for_every_scale",
     "c03_sub_drops_days_refuted", "c03_add_collapses_refuted", "c03_neg_keeps_jds_refuted",
 ]
 
-REQ = "From Verif Require Import Lib.Dyadic Model.C03_TimeArith."                      # correspondence: hand model only
+REQ = "From Verif Require Import Lib.Dyadic Model.C03_TimeArith Model.C03_Cells."                      # correspondence: hand model only
 REQ_GEN = "From Verif Require Import Model.C03_TimeArith Gen.C03_TimeArith Model.C03_Classify."
 SRC = os.path.join("midgard", "data", "_time.py")
 
@@ -294,6 +294,172 @@ def translate_neg(cls):
     return f"(NegBody {oc})"
 
 
+# ----------------------------------------------------------------------------- duration formats: _to_jds / _from_jds
+class _FmtPath:
+    """Symbolic execution of one TimeDelta*._to_jds / _from_jds body.  Every try/except alternative is a path; the
+    result is the list of returned expressions (terms of `fexpr`, Model/C03_Formats.v), one entry per path."""
+
+    ZERO_CALLS = ("zeros", "zeros_like")
+
+    def __init__(self, inputs, n_results, consts):
+        self.inputs = inputs            # python name -> fexpr term
+        self.n_results = n_results
+        self.consts = consts            # resolver: (owner, attr) -> run-time value
+        self.val2_default_zero = False
+
+    # -- expressions
+    def num(self, n, env):
+        if isinstance(n, ast.Name):
+            if n.id in env:
+                return env[n.id]
+            raise Refuse(f"name {n.id!r}")
+        if isinstance(n, ast.BinOp) and isinstance(n.op, (ast.Add, ast.Sub)):
+            return f"({'FAdd' if isinstance(n.op, ast.Add) else 'FSub'} {self.num(n.left, env)} {self.num(n.right, env)})"
+        if isinstance(n, ast.UnaryOp) and isinstance(n.op, ast.USub):
+            return f"(FNeg {self.num(n.operand, env)})"
+        if isinstance(n, ast.UnaryOp) and isinstance(n.op, ast.UAdd):
+            return self.num(n.operand, env)
+        if isinstance(n, ast.BinOp) and isinstance(n.op, ast.Mult):
+            for c, e in ((n.left, n.right), (n.right, n.left)):
+                k = self.const(c)
+                if k is not None:
+                    return f"(FScale {emit.s(k[0])} {emit.dy(k[1])} {self.num(e, env)})"
+            raise Refuse("product without a unit constant")
+        if isinstance(n, ast.Call):
+            f = n.func
+            # np.floor(e), np.asarray(e), np.array(e)
+            if isinstance(f, ast.Attribute) and _is_name(f.value, "np") and len(n.args) == 1 and not n.keywords:
+                if f.attr == "floor":
+                    return f"(FFloor {self.num(n.args[0], env)})"
+                if f.attr in ("asarray", "array"):
+                    return self.num(n.args[0], env)
+            # (timedelta expression).total_seconds(): the inputs already stand for total seconds
+            if isinstance(f, ast.Attribute) and f.attr == "total_seconds" and not n.args and not n.keywords:
+                return self.num(f.value, env)
+            # timedelta(days=e)
+            if _is_name(f, "timedelta") and not n.args and len(n.keywords) == 1 and n.keywords[0].arg == "days":
+                return f"(FTdDays {self.num(n.keywords[0].value, env)})"
+            raise Refuse(f"call {ast.dump(f)[:60]}")
+        if isinstance(n, ast.ListComp) and len(n.generators) == 1:
+            g = n.generators[0]
+            if g.ifs or g.is_async:
+                raise Refuse("comprehension with condition")
+            env2 = dict(env)
+            it = g.iter
+            if isinstance(it, ast.Call) and _is_name(it.func, "zip") and isinstance(g.target, ast.Tuple) \
+                    and len(it.args) == len(g.target.elts) and all(isinstance(t, ast.Name) for t in g.target.elts):
+                for t, a in zip(g.target.elts, it.args):
+                    env2[t.id] = self.num(a, env)          # element-wise: the loop variable is the element of that array
+            elif isinstance(g.target, ast.Name):
+                env2[g.target.id] = self.num(it, env)
+            else:
+                raise Refuse("comprehension shape")
+            return self.num(n.elt, env2)
+        raise Refuse(f"expression {ast.dump(n)[:80]}")
+
+    def const(self, n):
+        """Unit.<name> / cls.<name> -> (name, run-time float value) ; None if n is not such a constant."""
+        if isinstance(n, ast.Attribute) and isinstance(n.value, ast.Name) and n.value.id in ("Unit", "cls"):
+            v = self.consts(n.value.id, n.attr)
+            if isinstance(v, bool) or not isinstance(v, (int, float)) or float(v) != v:
+                raise Refuse(f"constant {n.value.id}.{n.attr} = {v!r}")
+            return n.attr, float(v)
+        return None
+
+    def is_zero_like(self, n):
+        if isinstance(n, ast.Constant) and n.value in (0, 0.0) and not isinstance(n.value, bool):
+            return True
+        if isinstance(n, ast.Call) and isinstance(n.func, ast.Attribute) and _is_name(n.func.value, "np") and n.func.attr in self.ZERO_CALLS:
+            return True
+        if isinstance(n, ast.Call) and _is_name(n.func, "timedelta"):
+            args = list(n.args) + [k.value for k in n.keywords]
+            return all(isinstance(a, ast.Constant) and a.value in (0, 0.0) for a in args)
+        if isinstance(n, ast.BinOp) and isinstance(n.op, ast.Mult) and isinstance(n.left, ast.List) and len(n.left.elts) == 1:
+            return self.is_zero_like(n.left.elts[0])          # [timedelta(seconds=0)] * len(val)
+        return False
+
+    def only_zero_to_val2(self, stmts):
+        """the `if val2 is None:` prelude: every assignment (through try/except) gives val2 a zero"""
+        for st in stmts:
+            if isinstance(st, ast.Assign) and len(st.targets) == 1 and _is_name(st.targets[0], "val2") and self.is_zero_like(st.value):
+                continue
+            if isinstance(st, ast.Try) and not st.orelse and not st.finalbody and st.handlers:
+                if self.only_zero_to_val2(st.body) and all(self.only_zero_to_val2(h.body) for h in st.handlers):
+                    continue
+            return False
+        return bool(stmts)
+
+    # -- statements
+    def run(self, stmts, env):
+        """-> list of result tuples (one per path)"""
+        for i, st in enumerate(stmts):
+            rest = stmts[i + 1:]
+            if isinstance(st, ast.Expr) and isinstance(st.value, ast.Constant) and isinstance(st.value.value, str):
+                continue
+            if isinstance(st, ast.If) and not st.orelse and isinstance(st.test, ast.Compare) and _is_name(st.test.left, "val2") \
+                    and len(st.test.ops) == 1 and isinstance(st.test.ops[0], ast.Is) \
+                    and isinstance(st.test.comparators[0], ast.Constant) and st.test.comparators[0].value is None:
+                if "val2" not in self.inputs or not self.only_zero_to_val2(st.body):
+                    raise Refuse("`if val2 is None` prelude")
+                self.val2_default_zero = True
+                continue
+            if isinstance(st, ast.Assign) and len(st.targets) == 1 and isinstance(st.targets[0], ast.Name):
+                env = dict(env)
+                env[st.targets[0].id] = self.num(st.value, env)
+                continue
+            if isinstance(st, ast.Try) and not st.orelse and not st.finalbody and len(st.handlers) == 1 and len(st.body) == 1:
+                h = st.handlers[0]
+                names = [h.type] if isinstance(h.type, ast.Name) else (list(h.type.elts) if isinstance(h.type, ast.Tuple) else [])
+                if not names or h.name or not all(isinstance(x, ast.Name) and x.id in ("AttributeError", "TypeError") for x in names):
+                    raise Refuse("except clause")
+                return self.run(list(st.body) + rest, env) + self.run(list(h.body) + rest, env)
+            if isinstance(st, ast.Return):
+                v = st.value
+                if self.n_results == 2:
+                    if not (isinstance(v, ast.Tuple) and len(v.elts) == 2):
+                        raise Refuse("_to_jds must return (jd1, jd2)")
+                    return [(self.num(v.elts[0], env), self.num(v.elts[1], env))]
+                return [(self.num(v, env),)]
+            raise Refuse(f"statement {type(st).__name__} at line {getattr(st, 'lineno', '?')}")
+        raise Refuse("path without return")
+
+
+def translate_formats(tree, consts):
+    """-> list of (fmt name, val2_default_zero, [(e1, e2)], [e]) for the TimeDeltaFormat subclasses; formats whose bodies
+    are outside the grammar are left out (the obligation gen_delta_formats_are_model then fails for lack of them)."""
+    out, problems = [], []
+    for cls in [n for n in tree.body if isinstance(n, ast.ClassDef)]:
+        if not any(isinstance(b, ast.Name) and b.id == "TimeDeltaFormat" for b in cls.bases):
+            continue
+        name = None
+        for st in cls.body:
+            if isinstance(st, ast.Assign) and len(st.targets) == 1 and _is_name(st.targets[0], "fmt") \
+                    and isinstance(st.value, ast.Constant) and isinstance(st.value.value, str):
+                name = st.value.value
+        if name is None:
+            continue
+        try:
+            fns = {n.name: n for n in cls.body if isinstance(n, ast.FunctionDef)}
+            res = []
+            for meth, inputs, k in (("_to_jds", ("val", "val2"), 2), ("_from_jds", ("jd1", "jd2"), 1)):
+                fn = fns.get(meth)
+                if fn is None:
+                    raise Refuse(f"{meth} missing")
+                args = [a.arg for a in fn.args.args]
+                if args[:3] != ["cls", inputs[0], inputs[1]] or any(a not in ("scale",) for a in args[3:]) or fn.args.vararg or fn.args.kwarg:
+                    raise Refuse(f"{meth} signature {args}")
+                if [d_.id for d_ in fn.decorator_list if isinstance(d_, ast.Name)] != ["classmethod"] or len(fn.decorator_list) != 1:
+                    raise Refuse(f"{meth} decorators")
+                p = _FmtPath({inputs[0]: "(FVar V1)", inputs[1]: "(FVar V2)"}, k, lambda owner, attr, _n=name: consts(_n, owner, attr))
+                paths = p.run(list(fn.body), dict(p.inputs))
+                res.append((paths, p.val2_default_zero))
+            out.append((name, res[0][1], res[0][0], [t[0] for t in res[1][0]]))
+        except Refuse as e:
+            problems.append(f"{name}: {e}")
+    return out, problems
+
+
+
 def translate_source(text):
     tree = ast.parse(text)
     classes = {n.name: n for n in tree.body if isinstance(n, ast.ClassDef)}
@@ -306,6 +472,7 @@ def translate_source(text):
             raise Refuse(f"{cls}.{meth}: {len(fns)} definitions")
         out[op] = translate_method(fns[0], KIND_OF_CLASS[cls])
     out["__neg__"] = translate_neg(classes["TimeDeltaArray"])
+    out["__tree__"] = tree
     # the reflected / in-place operators must stay switched off, otherwise Python's dispatch is not the model's
     for cls in ("TimeArray", "TimeDeltaArray"):
         for meth in ("__radd__", "__rsub__"):
@@ -320,7 +487,7 @@ def translate_source(text):
 
 def gen_text(methods, refused, time_scales, delta_scales, delta_formats):
     lines = ["From Coq Require Import String List QArith.",
-             "From Verif Require Import Model.C03_TimeArith.",
+             "From Verif Require Import Lib.Dyadic Model.C03_TimeArith Model.C03_Formats.",
              "Import ListNotations.",
              "Open Scope string_scope.",
              f"Definition gen_translated : bool := {emit.b(not refused)}."]
@@ -333,6 +500,9 @@ def gen_text(methods, refused, time_scales, delta_scales, delta_formats):
     lines.append(f"Definition gen_neg : neg_src := {methods.get('__neg__', 'NegUnknown') if not refused else 'NegUnknown'}.")
     lines.append("Definition gen_method (op : opname) : method :=\n  match op with TimeAdd => gen_TimeAdd | TimeSub => gen_TimeSub "
                  "| DeltaAdd => gen_DeltaAdd | DeltaSub => gen_DeltaSub end.")
+    fsrcs = methods.get("__formats__", []) if not refused else []
+    lines.append("Definition gen_delta_fmt_srcs : list fmt_src :=\n  " + emit.lst(
+        f"mkFmtSrc {emit.s(nm)} {emit.b(z)}\n    {emit.lst(emit.pair(a, b_) for a, b_ in to)}\n    {emit.lst(fr)}" for nm, z, to, fr in fsrcs) + ".")
     lines.append(f"Definition gen_time_scales : list string := {emit.lst(emit.s(x) for x in time_scales)}.")
     lines.append(f"Definition gen_delta_scales : list string := {emit.lst(emit.s(x) for x in delta_scales)}.")
     lines.append(f"Definition gen_delta_formats : list string := {emit.lst(emit.s(x) for x in delta_formats)}.")
@@ -351,6 +521,17 @@ def regen(ctx):
     except SyntaxError as e:
         refused = f"source does not parse: {e}"
     from midgard.data.time import Time, TimeDelta
+    if not refused:
+        from midgard.math.unit import Unit
+        from midgard.data import _time as _t
+
+        def consts(fmt_name, owner, attr):
+            return getattr(Unit, attr) if owner == "Unit" else getattr(_t._FORMATS["TimeDeltaFormat"][fmt_name], attr)
+        fsrcs, problems = translate_formats(methods.pop("__tree__"), consts)
+        methods["__formats__"] = fsrcs
+        if problems:
+            ctx.notes.append("duration formats outside the translator's grammar: " + "; ".join(problems))
+            ctx.log("format translator: " + "; ".join(problems))
     ctx.regen("C03_TimeArith", gen_text(methods, refused, list(Time.SCALES), list(TimeDelta.SCALES), list(TimeDelta.FORMATS)))
     return refused
 
@@ -517,7 +698,7 @@ def build_delta(spec, scale, negate=False):
             arrays.append(("val", val, val.copy(), val.flags.writeable))
         else:
             val = tds[0]
-        return TimeDelta(val, scale=scale, fmt=fmt), arrays, exact
+        return TimeDelta(val, scale=scale, fmt=fmt), arrays, exact, None
     vals = [sg * float.fromhex(v) for v in spec["val"]]
     v2 = [sg * float.fromhex(v) for v in spec["val2"]] if spec["val2"] is not None else None
     exact = [Fraction(a) + (Fraction(b2) if v2 is not None else 0) for a, b2 in zip(vals, v2 or vals)]
@@ -535,7 +716,27 @@ def build_delta(spec, scale, negate=False):
             arrays.append(("val2", val2, val2.copy(), val2.flags.writeable))
         else:
             val2 = v2[0]
-    return TimeDelta(val, scale=scale, fmt=fmt, val2=val2), arrays, exact
+    cargs = [("cell", 0) if spec["n"] else ("scalar", vals[0])]
+    cargs.append(("none", None) if v2 is None else (("cell", 1) if spec["n"] else ("scalar", v2[0])))
+    return TimeDelta(val, scale=scale, fmt=fmt, val2=val2), arrays, exact, cargs
+
+
+def ocell_term(values, writeable):
+    return emit.pair(emit.lst(emit.dy(v) for v in values), emit.b(writeable))
+
+
+def arg_term(a):
+    return {"cell": lambda v: f"(ACell {emit.nat(v)})", "scalar": lambda v: f"(AScalar {emit.q(Fraction(v))})", "none": lambda v: "ANone"}[a[0]](a[1])
+
+
+def obj_cells(x):
+    """the two cells (jd1, jd2) an object owns: ([values], writeable); a numpy scalar is an immutable one-element cell"""
+    import numpy as np
+    out = []
+    for j in (x.jd1, x.jd2):
+        arr = np.atleast_1d(np.asarray(j, dtype=float)).copy()
+        out.append(([float(v) for v in arr], bool(j.flags.writeable) if isinstance(j, np.ndarray) else False))
+    return out
 
 
 def kind_of(x):
@@ -600,7 +801,7 @@ class Collector:
     """Accumulates Coq cases of every check function together with the replay information of each case."""
 
     def __init__(self):
-        self.cases = {"check_op": [], "check_law": [], "check_neg": [], "check_ctor": [], "check_fmt": [], "check_intact": []}
+        self.cases = {"check_op": [], "check_law": [], "check_neg": [], "check_ctor": [], "check_fmt": [], "check_cells_ctor": [], "check_cells_op": []}
         self.meta = {k: [] for k in self.cases}
         self.direct = []            # problems decided without Coq: (class, replay)
 
@@ -618,10 +819,16 @@ def do_op(col, scen_id, label, sym, a, b, spec):
     Returns the result object or None."""
     import numpy as np
     sa, sb = snapshot(a), snapshot(b)
+    cb = obj_cells(a) + obj_cells(b)
     status, r = apply_op(sym, a, b)
     sa2, sb2 = snapshot(a), snapshot(b)
+    ca = obj_cells(a) + obj_cells(b)
     base = {"scenario": scen_id, "step": label, "expr": f"{type(a).__name__} {sym} {type(b).__name__}",
             "self": describe(a), "other": describe(b), "spec": spec}
+    if any(isinstance(j, np.ndarray) for j in (a.jd1, a.jd2, b.jd1, b.jd2)):        # numpy scalars are immutable
+        col.add("check_cells_op", emit.pair(emit.lst(ocell_term(*c) for c in cb), emit.pair(kind_of(a), kind_of(b)),
+                                            f"(Arith {opname_of(sym, a)} 0%nat 1%nat)", emit.lst(ocell_term(*c) for c in ca)),
+                dict(base, cells_before=cb, cells_after=ca))
     if sa != sa2 or sb != sb2:
         col.direct.append(("operand_changed", dict(base, what="an operand changed during the operation",
                                                    before=[repr(sa)[:400], repr(sb)[:400]], after=[repr(sa2)[:400], repr(sb2)[:400]])))
@@ -672,7 +879,7 @@ def ctor_delta(col, scen_id, name, spec, scale, negate=False):
     import numpy as np
     base = {"scenario": scen_id, "step": f"TimeDelta({name})", "spec": spec, "negated_input": negate, "scale": scale}
     try:
-        d, arrays, exact = build_delta(spec, scale, negate)
+        d, arrays, exact, cargs = build_delta(spec, scale, negate)
     except Exception as e:
         col.direct.append(("ctor_error", dict(base, what=f"TimeDelta(...) raised {type(e).__name__}: {e}")))
         return None
@@ -681,12 +888,16 @@ def ctor_delta(col, scen_id, name, spec, scale, negate=False):
         if arr.dtype == object:
             if list(arr) != list(before) or arr.flags.writeable != w:
                 col.direct.append(("input_changed", dict(base, what=f"caller's {nm} array (timedelta objects) changed")))
-            continue
-        if arr.flags.writeable != w:
-            col.direct.append(("input_flags", dict(base, what=f"flags.writeable of the caller's {nm} array changed from {w} to {arr.flags.writeable}")))
-        col.add("check_intact", emit.pair(f, emit.lst(emit.dy(v) for v in before), emit.lst(emit.dy(v) for v in arr)),
-                dict(base, array=nm, before=[float(v) for v in before], after=[float(v) for v in arr],
-                     how=f"a = np.array({[float(v) for v in before]}); TimeDelta(a, scale={scale!r}, fmt={spec['fmt']!r}); a"))
+    if cargs is not None and arrays:
+        # the caller's float arrays go through the cell machine: cells before, the call, cells after
+        cells_b = [ocell_term(before, w) for nm, arr, before, w in arrays]
+        cells_a = [ocell_term(arr, bool(arr.flags.writeable)) for nm, arr, before, w in arrays]
+        call = f"(NewDelta {f} {emit.s('s')} {arg_term(cargs[0])} {arg_term(cargs[1])})"
+        col.add("check_cells_ctor", emit.pair(emit.lst(cells_b), call, emit.lst(cells_a)),
+                dict(base, arrays=[nm for nm, *_ in arrays],
+                     before=[[float(v) for v in before] for _, _, before, _ in arrays], flags_before=[w for *_, w in arrays],
+                     after=[[float(v) for v in arr] for _, arr, _, _ in arrays], flags_after=[bool(arr.flags.writeable) for _, arr, _, _ in arrays],
+                     how=f"val = np.array(...); val2 = ...; TimeDelta(val, scale={scale!r}, fmt={spec['fmt']!r}, val2=val2); inspect val, val2 and their flags"))
     j1, j2 = parts(d)
     if len(j1) != len(exact):
         col.direct.append(("shape", dict(base, what=f"{len(exact)} input values gave {len(j1)} durations")))
@@ -730,8 +941,14 @@ def do_neg(col, scen_id, label, x, spec):
     s0 = snapshot(x)
     px = parts(x)
     mx = None
+    cb = obj_cells(x) * 2
     try:
         mx = -x
+        ca = obj_cells(x) * 2
+        if hasattr(x.jd1, "flags") or hasattr(x.jd2, "flags"):
+            col.add("check_cells_op", emit.pair(emit.lst(ocell_term(*c) for c in cb), emit.pair(kind_of(x), kind_of(x)),
+                                                "(NegD 0%nat)", emit.lst(ocell_term(*c) for c in ca)),
+                    dict(base, cells_before=cb, cells_after=ca))
         pm = parts(mx)
         if len(pm[0]) != len(px[0]) or tuple(mx.shape) != tuple(x.shape):
             col.direct.append(("shape", dict(base, what=f"-{label} has shape {tuple(mx.shape)} for operand shape {tuple(x.shape)}")))
@@ -949,11 +1166,13 @@ QUIRK_WHAT = {
     "c03_sub_drops_days": "Time - TimeDelta subtracts only the day fraction (jd2) of the duration: (t - d) + d != t for |d| >= 1 day",
     "c03_add_collapses_days": "Time + TimeDelta adds the collapsed float d.days to jd2: up to ~0.3 us lost for durations of decades ((t+d)-t = d only to ~100 ns, not 1 ns)",
     "c03_neg_keeps_jds": "-TimeDelta (inherited ndarray.__neg__) negates the values but keeps jd1/jd2: t + (-d) = t + d",
+    "c03_val2_aliased": "TimeDelta(fmt='days'|'jd', val2=array) overwrites the caller's val2 array with the day fractions, freezes it and keeps it as jd2",
     "c03_seconds_inplace": "TimeDelta(fmt='seconds') multiplies the caller's array in place by Unit.second2day (and raises for integer / read-only arrays)",
 }
 # steps whose self operand is the result of an earlier Time + TimeDelta step of the same scenario
 UNNORMALISED_FROM = {"(t+d)-t": "t+d"}
-VERDICT_QUIRK = {2: "c03_sub_drops_days", 3: "c03_add_collapses_days", 4: "c03_neg_keeps_jds", 5: "c03_seconds_inplace"}
+VERDICT_QUIRK = {2: "c03_sub_drops_days", 3: "c03_add_collapses_days", 4: "c03_neg_keeps_jds", 5: "c03_seconds_inplace",
+                 7: "c03_val2_aliased"}
 
 
 def correspondence(ctx, specs, shard=400, base_id=0):
@@ -961,9 +1180,17 @@ def correspondence(ctx, specs, shard=400, base_id=0):
     for i, spec in enumerate(specs):
         exec_scenario(col, base_id + i, spec)
     verdicts = {}
+    import time as _time
+    t0 = _time.time()
+    shards, owner = [], []
     for fn, cases in col.cases.items():
-        vs = ctx.coq_cases(emit.shard_terms(fn, cases, shard), REQ)
-        verdicts[fn] = emit.flatten_verdicts(vs, len(cases))
+        for sh_ in emit.shard_terms(fn, cases, shard):
+            shards.append(sh_)
+            owner.append(fn)
+    vs = ctx.coq_cases(shards, REQ)                      # all check functions in one parallel batch
+    for fn, cases in col.cases.items():
+        verdicts[fn] = emit.flatten_verdicts([v for v, o in zip(vs, owner) if o == fn], len(cases))
+    ctx.log("  " + ", ".join(f"{fn}: {len(c)}" for fn, c in col.cases.items()) + f" cases in {len(shards)} shards, {_time.time() - t0:.1f}s")
     return col, verdicts
 
 
@@ -1024,7 +1251,7 @@ def decide(ctx, col, verdicts, code):
     seen = set(verdicts["check_op"] or [])
     bits = (code if code is not None and code > 0 else 0) | (1 if 2 in seen else 0) | (2 if 3 in seen else 0)
     op_quirk = {}          # (scenario, step) -> quirk verdict, to attribute a failing law to the step that causes it
-    for fn in ("check_op", "check_neg", "check_ctor", "check_fmt", "check_intact", "check_law"):
+    for fn in ("check_op", "check_neg", "check_ctor", "check_fmt", "check_cells_ctor", "check_cells_op", "check_law"):
         flat = verdicts[fn]
         if flat is None:
             ctx.violation({"broken": f"correspondence shards of {fn} did not evaluate in Coq", "errors": ctx.last_coq_errors[:2]},
@@ -1089,6 +1316,7 @@ def run(ctx):
         core.make(["theories/Model/C03_TimeArith.vo"])
     code = None
     neg_code = None
+    fmt_code = None
     if not refused:
         import re
         ans = ctx.coq_eval(REQ_GEN, "gen_quirks_code")
@@ -1097,13 +1325,16 @@ def run(ctx):
         ans = ctx.coq_eval(REQ_GEN, "gen_neg_code")
         m = re.search(r"=\s*\(?(-?\d+)\)?%?Z?\s*:\s*Z", ans)
         neg_code = int(m.group(1)) if m else None
-    ctx.log(f"regenerated methods: refused={refused!r} gen_quirks_code={code} gen_neg_code={neg_code} "
+        ans = ctx.coq_eval(REQ_GEN, "gen_formats_code")
+        m = re.search(r"=\s*\(?(-?\d+)\)?%?Z?\s*:\s*Z", ans)
+        fmt_code = int(m.group(1)) if m else None
+    ctx.log(f"regenerated methods: refused={refused!r} gen_quirks_code={code} gen_neg_code={neg_code} gen_formats_code={fmt_code} "
             "(0 = specification; __neg__: 4 = inherited ndarray.__neg__, -1 = body outside the model)")
 
     from midgard.data.time import Time
     scales = list(Time.SCALES)
     rng = ctx.rng
-    n_scen = 180 if ctx.quick() else 3500
+    n_scen = 150 if ctx.quick() else 2500
     specs = [json.loads(json.dumps(c)) for c in CORPUS]
     for _ in range(n_scen):
         specs.append(gen_scenario(rng, scales))
@@ -1170,7 +1401,7 @@ def run(ctx):
               "1 ns), unary minus, 11 refusals (mixed scales, time+time, duration-time), constructor accuracy, 4 format read-outs, byte "
               "images/flags of operands and caller arrays before/after. distinct_nontrivial = distinct (operation, operand doubles, element) "
               "cases that produced a result + distinct law/constructor/read-out cases"),
-        extra={"gen_quirks_code": code, "gen_neg_code": neg_code, "translator_refusal": refused},
+        extra={"gen_quirks_code": code, "gen_neg_code": neg_code, "gen_formats_code": fmt_code, "translator_notes": list(ctx.notes), "translator_refusal": refused},
     )
 
 
